@@ -624,3 +624,61 @@ def gr_8c(ctx, rep):
                    'function is missed or a foreign one is counted' % (sorted(excluded), sorted(want)))
     if not found:
         rep.ob('GR-8c', PYTREE, fn.qual, 'scope boundary of the yield scan', False, 'the scan no longer stops at nested scopes')
+
+
+def gr_8d(ctx, rep):
+    rep.rule('GR-8d', 'Name.get_definition gives up early (returns None without having reached a definition node) only '
+                      'under node types that cannot lie between a bound name and its definition: the types the sibling '
+                      '_defined_names descends through (tuple / list / parenthesis / star / attribute-chain targets) are '
+                      'never among them')
+    import re as _re
+    from ..facts import facts_at
+    from . import tc
+    dn = ctx.prog.func(PYTREE, '_defined_names')
+    gd = ctx.prog.func(PYTREE, 'Name.get_definition')
+    # the target path: every node type literal _defined_names tests its argument against
+    param = dn.params()[0]
+    path_types = set()
+    # ... in a branch that hands a *child* of that node back to _defined_names (so a Name directly below it is a target)
+    for n in walk_own(dn.node):
+        if not isinstance(n, ast.If):
+            continue
+        recurses = any(isinstance(x, ast.Call) and isinstance(x.func, ast.Name) and x.func.id == dn.name
+                       for b in n.body for x in ast.walk(b))
+        t = n.test
+        if recurses and isinstance(t, ast.Compare) and len(t.ops) == 1 and isinstance(t.ops[0], (ast.In, ast.Eq)) \
+                and norm(t.left) == '%s.type' % param:
+            vals = tc._const_strs(ctx, dn.mod, t.comparators[0])
+            if vals:
+                path_types |= set(vals)
+    if len(path_types) < 4:
+        raise AnalysisError('GR-8d: target path of _defined_names not recognised (%s)' % sorted(path_types))
+    rep.stat('definition_target_path_types', sorted(path_types))
+    table = module_set(ctx, PYTREE, '_GET_DEFINITION_TYPES')
+    n_ret = 0
+    for n in walk_own(gd.node):
+        if not (isinstance(n, ast.Return) and (n.value is None or (isinstance(n.value, ast.Constant) and n.value.value is None))):
+            continue
+        n_ret += 1
+        pinned = set()
+        for text, positive in facts_at(n, gd.node):
+            if not positive or ' | ' in text:
+                continue
+            m = _re.fullmatch(r'[\w.]+ (?:in|==) (.*)', text)
+            if not m or not _re.match(r'[\w.]*type_?\b|[\w.]+\.type\b', text):
+                continue
+            lits = set(_re.findall(r"'([^']*)'", m.group(1)))
+            if not lits:
+                # a named table: resolve through the module
+                name = m.group(1).strip()
+                try:
+                    lits = set(module_set(ctx, PYTREE, name))
+                except Exception:
+                    lits = set()
+            pinned |= lits
+        pinned -= set(table)          # reaching a definition type is the regular exit
+        bad = sorted(pinned & path_types)
+        rep.ob('GR-8d', PYTREE, gd.qual, 'return None under node types %s' % (sorted(pinned) or 'not pinned'), not bad,
+               'the definition lookup gives up when the name sits directly in %s, but _defined_names looks for targets '
+               'through exactly these node types: `(x) = 1`, `[y] = z`, `for (i) in r` bind names there' % bad)
+    rep.minimum('GR-8d', 3)
